@@ -1057,6 +1057,8 @@ impl HomeRelayWatch {
             #[cfg(iroh_verif)]
             self.verif_event("c26.write", Some(url));
         }
+        #[cfg(iroh_verif)]
+        self.verif_event("c26.status_done", Some(url));
     }
 
     fn get(&self) -> Option<RelayStatus> {
